@@ -118,6 +118,9 @@ def sym_matrix(rng, n, kind="psd"):
         S = np.abs(rng.normal(size=(n, n)))
         S = (S + S.T) / 2
         np.fill_diagonal(S, 0.0)
+        if rng.random() < 0.5:
+            # a user cost such as 1 - similarity need not vanish on the diagonal: it must be used as given
+            np.fill_diagonal(S, np.abs(rng.normal(size=n)) * 0.5)
         return S
     raise KeyError(kind)
 
